@@ -48,3 +48,38 @@ package response
 //@ func (*NetconfResponse).record1dot0 [C02]
 //@   modifies r.Result
 //@   ensures #exact-1.0 r.Result == trimSpace(trimSuffix(trimSpace(trimPrefix(old(r.RawResult), xmlHeader)), v1Dot0Delim))
+
+// ---- C13: failure marking ------------------------------------------------------------------------
+
+// validity of a failure-string list: every entry is a real (non-empty) substring to look for
+//@ spec validFWC(l []string) bool := forall i int :: 0 <= i && i < len(l) ==> len(l[i]) > 0
+//@ spec containsAnyS(s string, l []string) bool := exists i int :: 0 <= i && i < len(l) && contains(s, l[i])
+// a response's Failed is either nil or a non-nil *OperationError (what Record establishes)
+//@ spec respWF(r *Response) bool := r.Failed == nil || (typeis(r.Failed, "*response.OperationError") && as(r.Failed, "*response.OperationError") != nil)
+//@ spec multiWF(mr *MultiResponse) bool := mr.Failed == nil || (typeis(mr.Failed, "*response.MultiOperationError") && as(mr.Failed, "*response.MultiOperationError") != nil)
+//@ spec opsOf(mr *MultiResponse) []ref := mr.Failed == nil ? ints() : as(mr.Failed, "*response.MultiOperationError").Operations
+
+//@ func NewResponse [C13]
+//@   modifies alloc()
+//@   ensures fresh(result) && result.Failed == nil && result.FailedWhenContains == failedWhenContains && result.Input == input && result.Result == ""
+
+//@ func (*Response).Record [C13]
+//@   requires validFWC(r.FailedWhenContains)
+//@   requires r.Failed == nil
+//@   modifies r.EndTime, r.ElapsedTime, r.RawResult, r.Result, r.Failed, alloc()
+//@   ensures #result r.Result == b && r.RawResult == b
+//@   ensures #failed-iff-contains (r.Failed != nil) <==> containsAnyS(b, r.FailedWhenContains)
+//@   ensures #wf respWF(r)
+
+//@ func NewMultiResponse [C13]
+//@   modifies alloc()
+//@   ensures fresh(result) && result.Failed == nil && len(result.Responses) == 0 && result.Host == host
+
+//@ func (*MultiResponse).AppendResponse [C13]
+//@   requires respWF(r) && multiWF(mr)
+//@   modifies mr.EndTime, mr.ElapsedTime, mr.Failed, mr.Responses, as(mr.Failed, "*response.MultiOperationError").Operations, alloc()
+//@   ensures #responses mr.Responses == old(mr.Responses) ++ refs(r)
+//@   ensures #failed-iff-member (mr.Failed != nil) <==> (old(mr.Failed) != nil || r.Failed != nil)
+//@   ensures #operations-failed r.Failed != nil ==> opsOf(mr) == old(opsOf(mr)) ++ refs(as(r.Failed, "*response.OperationError"))
+//@   ensures #operations-ok r.Failed == nil ==> mr.Failed == old(mr.Failed) && opsOf(mr) == old(opsOf(mr))
+//@   ensures #wf multiWF(mr)
